@@ -30,6 +30,9 @@ type HistOpt struct {
 	ScaleTx    bool // long transactions only
 	ScaleRows  bool // rows events with more than a thousand rows only
 	ManyTables int  // if > 0: one history in ManyTables has hundreds to thousands of tables (Scale implies 50)
+	// scaleLeft, when set by History(), is the number of scale shapes one history may still use: the
+	// shapes do not pile up in one history (which would only measure the harness's memory)
+	scaleLeft *int
 }
 
 // DefaultHistOpt is the C01 shape.
@@ -245,13 +248,16 @@ func RowsEvent(t *rapid.T, tables []hist.Table, ti int, ck *clock, o HistOpt) hi
 		}
 		r.Rows = append(r.Rows, row)
 	}
-	if (o.Scale || o.ScaleRows) && len(r.Rows) > 0 && rapid.IntRange(0, 39).Draw(t, "big_rows_event") == 0 {
+	if (o.Scale || o.ScaleRows) && len(r.Rows) > 0 && (o.scaleLeft == nil || *o.scaleLeft > 0) && rapid.IntRange(0, 39).Draw(t, "big_rows_event") == 0 {
 		// one rows event with more than a thousand rows (what a bulk statement produces)
 		small := true
 		for _, v := range append(append([]hist.Value{}, r.Rows[0].Before...), r.Rows[0].After...) {
 			small = small && v.B.Len() < 100 && v.J == nil
 		}
 		if small {
+			if o.scaleLeft != nil {
+				*o.scaleLeft--
+			}
 			n := rapid.SampledFrom([]int{1024, 1025, 1100, 2500}).Draw(t, "big_rows_n")
 			first := r.Rows[0]
 			r.Rows = make([]hist.Row, n)
@@ -423,6 +429,8 @@ func Config(t *rapid.T) hist.Cfg {
 
 // History draws a complete history.
 func History(t *rapid.T, o HistOpt) *hist.History {
+	budget := 1
+	o.scaleLeft = &budget
 	if strconv.IntSize == 32 {
 		// a 32-bit process has 3 GiB of address space: the scale shapes stay with the 64-bit shards
 		o.Scale, o.ScaleTx, o.ScaleRows, o.ManyTables = false, false, false, 0
@@ -534,7 +542,7 @@ func History(t *rapid.T, o HistOpt) *hist.History {
 					u.Items = append(u.Items, hist.Item{Kind: hist.IUnknownEvent, EvType: typ, Body: body, TS: ts})
 				}
 			}
-			if (o.Scale || o.ScaleTx) && rapid.IntRange(0, 39).Draw(t, "long_tx") == 0 {
+			if (o.Scale || o.ScaleTx) && *o.scaleLeft > 0 && rapid.IntRange(0, 39).Draw(t, "long_tx") == 0 {
 				// one statement split into very many rows events (a long transaction)
 				for j := range u.Items {
 					if u.Items[j].Kind == hist.IRows {
@@ -548,6 +556,7 @@ func History(t *rapid.T, o HistOpt) *hist.History {
 							}
 						}
 						if small {
+							*o.scaleLeft--
 							reps := []int{4, 11, 21, 41, 1100, 1100}
 							if o.Scale {
 								reps = append(reps, 33000) // more than 2^16 events in one transaction
@@ -597,7 +606,8 @@ func History(t *rapid.T, o HistOpt) *hist.History {
 		}
 	}
 	between()
-	if o.Scale && len(h.Units) > 0 && rapid.IntRange(0, 49).Draw(t, "long_history") == 0 {
+	if o.Scale && len(h.Units) > 0 && *o.scaleLeft > 0 && rapid.IntRange(0, 49).Draw(t, "long_history") == 0 {
+		*o.scaleLeft--
 		// a long history: the units in front of the first file change are repeated until the stream has well
 		// over a thousand events
 		cut := len(h.Units)
@@ -641,7 +651,8 @@ func History(t *rapid.T, o HistOpt) *hist.History {
 	if manyOdds == 0 && o.Scale {
 		manyOdds = 50
 	}
-	if manyOdds > 0 && rapid.IntRange(0, manyOdds-1).Draw(t, "many_tables") == 0 {
+	if manyOdds > 0 && *o.scaleLeft > 0 && rapid.IntRange(0, manyOdds-1).Draw(t, "many_tables") == 0 {
+		*o.scaleLeft--
 		// hundreds of tables on one stream, statements that touch two of them: whatever the replica
 		// keeps per table id must survive that
 		nt := rapid.SampledFrom([]int{130, 300, 520, 700, 1100, 2100}).Draw(t, "many_tables_n")
